@@ -310,7 +310,9 @@ Proof.
   { apply (i_q _ _ (Inv_reach ls) t q j cj Hq). rewrite E. apply in_or_app. right. left. reflexivity. }
   rewrite E in Hq.
   destruct (genuine_answer_executed ls t n front j cj back Ho Hq Hcj Hfront) as (tail & A & B & C' & D & F & G).
-  exists (front ++ (j, cj) :: back), front, j, cj, back, tail. repeat split; auto; try apply G.
+  exists (front ++ (j, cj) :: back), front, j, cj, back, tail.
+  split; [exact Hq|]. split; [reflexivity|]. split; [exact Htj|]. split; [exact Hcj|]. split; [exact Hfront|].
+  split; [exact A|]. split; [exact C'|]. split; [exact D|]. split; [|exact G].
   rewrite A, exec_prompts_app. apply in_or_app. right.
   clear - B C'. revert B C'. generalize (S (length front)). generalize (map (discard_out n) front).
   induction tail as [|[l o] tail IH]; intros outs k B C'.
